@@ -133,6 +133,12 @@ func c12Bubble(tp *core.Tape, e *core.Env) (ops []string) {
 			chunks = []int{1 << 20}
 		}
 		spec := &sidecarsim.TargetSpec{Payload: payload, ContentType: ct, Gzip: gz, Chunks: chunks}
+		if gz && len(payload) >= 4 && tp.Bool("gzip_members", 1, 3) {
+			// a compressed body made of several gzip members (a server that finishes its compressor at
+			// every flush): it decompresses to the concatenation, which is the target's body
+			spec.GzipMembers = 2 + tp.Choose("gzip_member_count", 3)
+			e.Probe("gzip_several_members")
+		}
 		// a target whose connection breaks off once in the middle of the body and that answers properly
 		// afterwards: whether Prometheus then sees a failure is C13's business; if it is handed a
 		// complete 200 response, that response must still be exactly the target's body
@@ -140,7 +146,7 @@ func c12Bubble(tp *core.Tape, e *core.Env) (ops []string) {
 		if flaky {
 			wire := len(payload)
 			if gz {
-				wire = len(sidecarsim.Gzip(payload))
+				wire = len(sidecarsim.GzipMembers(payload, spec.GzipMembers))
 			}
 			spec.Fail, spec.FailFirst, spec.FailOffset = "break", 1, 1+tp.Choose("break_once_offset", wire-1)
 			e.Fault("target_break_once")
